@@ -65,6 +65,8 @@ func reLayout(r *rand.Rand, text string) (string, bool) {
 
 func genNeutralStmt(r *rand.Rand, n int, emit func(args ...string)) {
 	fixed := [][2]string{
+		{"SELECT a INTO db.rp :MEASUREMENT FROM m", "SELECT a INTO db.rp /*c*/ :MEASUREMENT FROM m"},
+		{"SELECT a INTO rp :MEASUREMENT FROM m", "SELECT a INTO rp -- c\n :MEASUREMENT FROM m"},
 		{"DROP DATABASE foo ; SHOW USERS", "DROP DATABASE foo /* done */ ; SHOW USERS"},
 		{"SELECT value FROM cpu", "SELECT value /*/ see /var/log/influx */ FROM cpu"},
 		{"SELECT value FROM cpu", "SELECT value --1\nFROM cpu"},
@@ -189,12 +191,25 @@ func propNeutralStmt(args []string) string {
 	return ""
 }
 
+// whitespace containing at least one comment, directly in front of a `:` (the `:MEASUREMENT` of an INTO target)
+var targetColonComment = regexp.MustCompile(`[ \t\r\n]*((/\*([^*]|\*[^/])*\*/|--[^\n]*\n)[ \t\r\n]*)+:`)
+
 func knownNeutralStmt(args []string) string {
 	ss, ok := decAll(args)
 	if !ok || len(ss) != 2 {
 		return ""
 	}
 	base, variant := ss[0], ss[1]
+	// recorded finding: a comment in the whitespace between the INTO target and `:MEASUREMENT`
+	// (parseTarget peeks at the next rune behind one pushed-back WS token)
+	if targetColonComment.MatchString(variant) {
+		stripped := targetColonComment.ReplaceAllString(variant, " :")
+		d1, err1 := queryDump(base)
+		d2, err2 := queryDump(stripped)
+		if err1 == nil && err2 == nil && d1 == d2 {
+			return "comment-before-target-colon"
+		}
+	}
 	if !stmtLookaheadComment.MatchString(variant) {
 		return ""
 	}
